@@ -6,6 +6,7 @@ import (
 )
 
 type Gen struct {
+	TypeErrors   bool // also generate unknown and cyclic type references
 	grNames      []string
 	NoSubs       bool
 	Typedefs     bool
@@ -153,9 +154,47 @@ func (g *Gen) visibleTypedefs(s *Scope) []string {
 	return out
 }
 
+// special builds a type statement whose attributes must survive a derivation chain:
+// an enumeration, a leafref, a decimal64 or a union of distinct built-ins.
+func (g *Gen) special(s *Scope) *TypeRef {
+	switch g.pick(4) {
+	case 0:
+		t := &TypeRef{Name: "enumeration", Scope: s}
+		for q := 2 + g.pick(3); q > 0; q-- {
+			t.Enums = append(t.Enums, g.name("e"))
+		}
+		return t
+	case 1:
+		return &TypeRef{Name: "leafref", Path: "../" + g.name("lp"), Scope: s}
+	case 2:
+		return &TypeRef{Name: "decimal64", Frac: 1 + g.pick(18), Scope: s}
+	}
+	t := &TypeRef{Name: "union", Scope: s}
+	ms := []string{"string", "int8", "boolean", "uint32"}
+	g.R.Shuffle(len(ms), func(a, b int) { ms[a], ms[b] = ms[b], ms[a] })
+	for _, m := range ms[:2+g.pick(2)] {
+		t.Members = append(t.Members, &TypeRef{Name: m, Scope: s})
+	}
+	return t
+}
+
 func (g *Gen) typeRef(s *Scope) *TypeRef {
 	ts := []string{"string", "int8", "uint32", "boolean", "empty"}
 	t := &TypeRef{Name: ts[g.pick(len(ts))], Scope: s}
+	if g.Typedefs && g.pick(10) == 0 {
+		return g.special(s)
+	}
+	if g.TypeErrors && g.pick(40) == 0 {
+		// error side: a name nothing defines, behind no prefix, the own prefix or an unknown prefix
+		bad := g.name("nosuch")
+		switch g.pick(3) {
+		case 1:
+			bad = s.File.Prefix + ":" + bad
+		case 2:
+			bad = "zz" + g.name("u") + ":" + bad
+		}
+		return &TypeRef{Name: bad, Scope: s}
+	}
 	if g.Typedefs && g.pick(2) == 0 {
 		if vis := g.visibleTypedefs(s); len(vis) > 0 {
 			t.Name = vis[g.pick(len(vis))]
@@ -172,7 +211,22 @@ func (g *Gen) typeRef(s *Scope) *TypeRef {
 	return t
 }
 
+// addCycle adds typedefs that refer to each other in a ring of one to three.
+func (g *Gen) addCycle(s *Scope) {
+	n := 1 + g.pick(3)
+	var names []string
+	for i := 0; i < n; i++ {
+		names = append(names, g.name("cyc"))
+	}
+	for i, nm := range names {
+		s.Typedefs = append(s.Typedefs, &Typedef{Name: nm, Scope: s, Type: &TypeRef{Name: names[(i+1)%n], Scope: s}})
+	}
+}
+
 func (g *Gen) addTypedefs(s *Scope) {
+	if g.TypeErrors && g.pick(60) == 0 {
+		g.addCycle(s)
+	}
 	for q := g.pick(3); q > 0; q-- {
 		name := g.name("t")
 		reused := false
@@ -210,6 +264,9 @@ func (g *Gen) addTypedefs(s *Scope) {
 		}
 		td := &Typedef{Name: name, Scope: s}
 		td.Type = g.typeRef(s)
+		if !reused && g.pick(4) == 0 {
+			td.Type = g.special(s)
+		}
 		if reused {
 			// a shadowing typedef changes what earlier references in this scope bind to;
 			// keep it cycle-free by basing it on a built-in.
